@@ -337,6 +337,9 @@ def run_jobs(chk: Check, fn, jobs, procs=None):
     from symex import core as C
 
     jobs = list(jobs)
+    only = os.environ.get('VERIF_DEV_ONLY_JOBS')  # development aid: run only the job functions named here (never set by a registered command)
+    if only and getattr(fn, '__name__', '') not in only.split(','):
+        return
     procs = procs or min(16, max(1, len(jobs)))
     args = [(fn, j, chk.seed) for j in jobs]
     if procs == 1 or len(jobs) == 1:
